@@ -304,7 +304,12 @@ func check(c *core.Ctx, t *opspace.Transition) {
 		return
 	}
 	violate := func(inv, what string) {
-		key := core.SanitizeKey(fmt.Sprintf("%s|%s|%s|fault=%s|pre:%s", inv, t.Driver, opClass, faultClass, preClass))
+		pc := "|pre:" + preClass
+		if inv == "T2-deployed" || inv == "T2-uninstalled" {
+			// the final "-> deployed" / "-> uninstalled" write being only logged does not depend on the ledger shape
+			pc = ""
+		}
+		key := core.SanitizeKey(fmt.Sprintf("%s|%s|%s|fault=%s%s", inv, t.Driver, opClass, faultClass, pc))
 		c.Violate(prop, key, fmt.Sprintf("%s: %s [driver=%s history=%v pre=(%s) post=(%s) err=%q]", inv, what, t.Driver, opspace.PathStrings(t.Path), hx.StatusVector(pre), hx.StatusVector(post), res.Err),
 			replayData{Replay: opspace.Replay{Driver: t.Driver, Init: t.Init, Path: t.Path}, Key: key, Tier: c.Tier})
 	}
